@@ -84,6 +84,8 @@ def inv(st, kind, n, strip_suffix):
     else:
         raise ValueError(kind)
     run_prop(st, "invariant/" + kind.split("-")[0], S.same_fingerprint, u, v, strip_suffix)
+    if kind.startswith("suffix-"):
+        run_prop(st, "invariant/suffix-after-other-calls", S.same_fingerprint_after_other_calls, u, v)
 
 
 def shape(st, skel, n, strip_suffix):
